@@ -26,9 +26,9 @@ ID = 'C20'
 LEVEL = 'exploration'
 RULE = ('2-variable blocks from the menu product (constants, aliases, one- and two-term affine forms, row sums <= 0.5) x dress '
         '{plain, lag+exogenous+initial condition+decorative, user time via own lag, exogenous user time, expressions in k with a user '
-        'calendar axis} x MaxTime {1,3} x exogenous length {exact, excess} x generator reduction {off,on} x emission {first, second by the '
+        'calendar axis, variables spelled like the loop state of the generated solver (err, cnt, new_vector)} x MaxTime {1,3} x exogenous length {exact, excess} x generator reduction {off,on} x emission {first, second by the '
         'same generator object}; oracle: module imports and runs, MaxTime+1 values per non-lagged variable, residual of every equation <= 2B '
-        '(B = row-sum * Err_Tolerance from the finite-difference Jacobian; violated >= 20B), exogenous exact, agreement with the in-process '
+        '(B = row-sum * Err_Tolerance from the finite-difference Jacobian; violated >= 20B), exogenous exact, k=0 = stated initial condition (else 0 or the in-process start), agreement with the in-process '
         'solver within a gap when the k=0 values coincide, table header t-first and duplicate-free; non-trivial = blocks with a simultaneous core')
 ASSUMPTIONS = [
     'generated solver stop test: sum |new-old| <= Err_Tolerance, reported vector = last iterate; hence residual_i <= sum_j |a_ij| tol',
@@ -36,7 +36,7 @@ ASSUMPTIONS = [
 ]
 BOUNDS = {'quick': {'coefs': [-.5, .25, .5], 'consts': [0., 1.]}, 'thorough': {'coefs': [-.5, -.25, .25, .5], 'consts': [0., 1., -3.5]}}
 
-DRESS = ['plain', 'lagexo', 'user-t-endo', 'user-t-exo', 'k-expr']
+DRESS = ['plain', 'lagexo', 'user-t-endo', 'user-t-exo', 'k-expr', 'loop-names']
 MATH_ENV = dict((k, getattr(math, k)) for k in dir(math) if not k.startswith('_'))
 
 
@@ -64,6 +64,12 @@ def dress(eqs, kind, maxtime, excess):
         eqs.append(('trend', '0.5*k'))
         eqs[0] = (eqs[0][0], eqs[0][1] + ' + 0.1*trend')
         return Block(eqs, maxtime=maxtime, tol='1e-6')
+    if kind == 'loop-names':
+        # variables spelled like the generated solver's own loop state
+        eqs.append(('err', '0.5*err + .25*x'))
+        eqs.append(('cnt', 'err + 1.'))
+        eqs.append(('new_vector', '2*cnt'))
+        return Block(eqs, lags=[('LAG_y', 'y')], maxtime=maxtime, tol='1e-6')
     raise ValueError(kind)
 
 
@@ -167,7 +173,7 @@ def check_module(obj, block, case):
 
 
 def agree_with_inprocess(obj, block, case):
-    """Where the k=0 values coincide, module and in-process solver must agree within a gap."""
+    """Starting values, and - where the k=0 values coincide - agreement with the in-process solver within a gap."""
     try:
         s = EquationSolver(block.text(), run_equation_reduction=False)
         s.SolveEquation()
@@ -175,6 +181,19 @@ def agree_with_inprocess(obj, block, case):
         return [], 0
     tol = float(block.tol)
     names = [v for v, r in block.eqs]
+    # k=0: a stated initial condition is the starting value; without one the module starts either at 0 or where the
+    # in-process solver starts (both conventions accepted) - anything else means "not started from the same k=0 values"
+    for v in names:
+        if not hasattr(obj, v):
+            continue
+        v0 = getattr(obj, v)[0]
+        if v in block.ics:
+            want = feval(block.ics[v], {})
+            if v0 != want:
+                return [core.violation('k0-initial-condition-ignored', '%s starts at %r, stated initial condition %r' % (v, v0, want), case)], 0
+        elif v0 != 0.0 and v0 != s.TimeSeries[v][0]:
+            return [core.violation('k0-start-value-wrong', '%s starts at %r (no initial condition; in-process solver starts at %r)' % (
+                v, v0, s.TimeSeries[v][0]), case)], 0
     for v in names:
         if not hasattr(obj, v) or getattr(obj, v)[0] != s.TimeSeries[v][0]:
             return [], 0     # different starting point: nothing to compare
@@ -253,7 +272,7 @@ def run_unit(unit, tier):
                 continue
             simultaneous = ('y' in first[1]) and ('x' in second[1])
             for kind, maxtime, excess, red in itertools.product(DRESS, (1, 3), (False, True), (False, True)):
-                if excess and kind in ('plain', 'user-t-endo', 'k-expr'):
+                if excess and kind in ('plain', 'user-t-endo', 'k-expr', 'loop-names'):
                     continue
                 blk = dress(eqs, kind, maxtime, excess)
                 case = {'eqs': eqs, 'dress': kind, 'maxtime': maxtime, 'excess': excess, 'generator_reduction': red}
